@@ -13,10 +13,10 @@ import (
 
 	"github.com/deadsy/sdfx/render"
 	"github.com/deadsy/sdfx/sdf"
-	"github.com/deadsy/sdfx/verifrt/vos"
-	"github.com/deadsy/sdfx/verifrt/vsync"
 	v2 "github.com/deadsy/sdfx/vec/v2"
 	v3 "github.com/deadsy/sdfx/vec/v3"
+	"github.com/deadsy/sdfx/verifrt/vos"
+	"github.com/deadsy/sdfx/verifrt/vsync"
 
 	"verif/lib/lattice"
 	"verif/lib/vlib"
@@ -174,7 +174,7 @@ func main() {
 		}
 		return
 	}
-	bound := 2
+	bound := -1 // unbounded for the scripted renderer (happens-before state pruning)
 	var scens []scen
 	none := func() *vos.Plan { return &vos.Plan{Limit: -1} }
 	items := vlib.Pick(c, []int{0, 1, 81, 300, 700}, []int{0, 1, 81, 82, 256, 300, 512, 700, 1000})
@@ -210,8 +210,8 @@ func main() {
 	// real file system sinks: unwritable path (nonexistent directory) and /dev/full
 	for _, m := range []int{0, 1, 300} {
 		for _, path := range []string{filepath.Join(work, "no-such-dir", "x"), "/dev/full", filepath.Join(work, "ok")} {
-			scens = append(scens, scen{Sink: "3mf", Renderer: "scripted", Items: m, Renders: 1, Plan: none(), Path: path + ".3mf", Workers: 2, Bound: 1},
-				scen{Sink: "dxf", Renderer: "scripted", Items: m, Renders: 1, Plan: none(), Path: path + ".dxf", Workers: 2, Bound: 1})
+			scens = append(scens, scen{Sink: "3mf", Renderer: "scripted", Items: m, Renders: 1, Plan: none(), Path: path + ".3mf", Workers: 2, Bound: -1},
+				scen{Sink: "dxf", Renderer: "scripted", Items: m, Renders: 1, Plan: none(), Path: path + ".dxf", Workers: 2, Bound: -1})
 		}
 	}
 	scens[len(scens)-1].Path, scens[len(scens)-2].Path = filepath.Join(work, "ok.dxf"), filepath.Join(work, "ok.3mf")
@@ -219,9 +219,9 @@ func main() {
 	for _, rn := range []string{"uniform", "octree"} {
 		for _, w := range []int{1, 2} {
 			for k := 1; k <= 4; k++ {
-				b := 1
+				b := 2
 				if k > 1 {
-					b = 0
+					b = 1
 				}
 				scens = append(scens, scen{Sink: "triangles", Renderer: rn, Renders: k, Plan: none(), Workers: w, Bound: b})
 				scens = append(scens, scen{Sink: "stl", Renderer: rn, Renders: k, Plan: &vos.Plan{Limit: 4096}, Workers: w, Bound: b})
@@ -232,7 +232,7 @@ func main() {
 	m := c.RunSharded(len(scens), func(i int, j *vlib.Job) {
 		sc := scens[i]
 		maxLeak := int64(-1)
-		st := vsync.ExploreAll(vsync.Options{Bound: sc.Bound, Stop: c.Expired, MaxExec: 200000}, sc.body(), func(x *vsync.Execution, prefix []int) bool {
+		st := vsync.ExploreAll(vsync.Options{Bound: sc.Bound, Stop: c.Expired, MaxExec: 200000, Prune: true, SymmetricSpawn: []string{"render.evalRoutines"}}, sc.body(), func(x *vsync.Execution, prefix []int) bool {
 			rep := func() scen {
 				r := sc
 				r.Prefix = append([]int{}, x.Choices...)
@@ -258,6 +258,8 @@ func main() {
 		j.States += st.Executions
 		j.Transitions += st.Steps
 		j.Count("executions", st.Executions)
+	j.Count("pruned-executions", st.Pruned)
+		j.Count("pruned-executions", st.Pruned)
 		j.Count("exec|"+sc.Sink+"|"+sc.Renderer, st.Executions)
 		j.Count("steps|"+sc.Sink+"|"+sc.Renderer, st.Steps)
 		if st.Capped {
@@ -320,7 +322,7 @@ func main() {
 		Exhaustive: true,
 		Bounds: map[string]any{"items": items, "stl_plans": "create / seek / header-rewrite / close failure; byte limit at 0,1,83,84,85, every 4096 multiple -1/+0/+1/+2048 below the file size, size-50, size-1", "preemption_bound": bound,
 			"real_fs_sinks": "3MF and DXF into a nonexistent directory, /dev/full and a writable path (<=1 preemption)", "census": "uniform and octree renderers, 1-2 workers, k=1..4 consecutive renders", "scenarios": len(scens)},
-		Extra:       map[string]any{"counters": m.Counters},
+		Extra: map[string]any{"counters": m.Counters},
 		Assumptions: []string{"I/O failure is modelled as an error return of Create/Write/Seek/Close of the in-memory file (a byte limit makes a write fall short at that offset); kernel-level behaviour (SIGXFSZ default action) is outside the model",
 			"deadlock (main thread not finished, no enabled thread) decides 'never returns'"},
 	})
